@@ -481,7 +481,14 @@ def exec_for_invariant(engine, ctx, st: ast.For, env: Env, it, inv):
     for lab, c in inv_clauses(lo):
         ctx.oblige("%s/inv-init#%s" % (label, lab), lift_bool(c), kind="inv-init")
     # havoc
-    kinds = getattr(inv, "kinds", None) or {}
+    kinds = dict(getattr(inv, "kinds", None) or {})
+    kinds_by_value = getattr(inv, "kinds_by_value", None)
+    if kinds_by_value is not None:
+        # kinds of in-place mutated collections chosen by what the variable holds, not by what the code calls it
+        for n_, v_ in list(env.vars.items()):
+            k_ = kinds_by_value(n_, v_) if n_ not in kinds else None
+            if k_ is not None:
+                kinds[n_] = k_
     # collections that the body mutates in place (x.add(...)) are loop-carried too: the invariant declares their kind
     modified = modified + [n for n in kinds if n in env.vars and n not in modified]
     for n in modified:
